@@ -1725,21 +1725,21 @@ class ArmV6:
                     self.registers.hcr.tidcp and
                     not two_reg):
                 cr_mnum = substring(instr, 3, 0)
-                if (cr_nnum == 9 and cr_mnum in (0, 2, 5, 6, 7, 8)) or (
+                if (cr_nnum == 9 and cr_mnum in (0, 1, 2, 5, 6, 7, 8)) or (
                         cr_nnum == 10 and cr_mnum in (0, 1, 4, 8)) or (
                         cr_nnum == 11 and cr_mnum in (0, 1, 2, 3, 4, 5, 6, 7, 8, 15)):
                     if not self.registers.current_mode_is_not_user() and self.instr_is_pl0_undefined(instr):
                         if configurations.coproc_accepted_pl0_undefined:
                             raise UndefinedInstructionException()
-                        hsr_string = 0b0000000000000000000000000
-                        hsr_string = set_substring(hsr_string, 19, 17, substring(instr, 7, 5))
-                        hsr_string = set_substring(hsr_string, 16, 14, substring(instr, 23, 21))
-                        hsr_string = set_substring(hsr_string, 13, 10, substring(instr, 19, 16))
-                        hsr_string = set_substring(hsr_string, 8, 5, substring(instr, 15, 12))
-                        hsr_string = set_substring(hsr_string, 4, 1, substring(instr, 3, 0))
-                        hsr_string = set_bit_at(hsr_string, 0, bit_at(instr, 20))
-                        self.write_hsr(0b000011, hsr_string)
-                        raise HypTrapException()
+                    hsr_string = 0b0000000000000000000000000
+                    hsr_string = set_substring(hsr_string, 19, 17, substring(instr, 7, 5))
+                    hsr_string = set_substring(hsr_string, 16, 14, substring(instr, 23, 21))
+                    hsr_string = set_substring(hsr_string, 13, 10, substring(instr, 19, 16))
+                    hsr_string = set_substring(hsr_string, 8, 5, substring(instr, 15, 12))
+                    hsr_string = set_substring(hsr_string, 4, 1, substring(instr, 3, 0))
+                    hsr_string = set_bit_at(hsr_string, 0, bit_at(instr, 20))
+                    self.write_hsr(0b000011, hsr_string)
+                    raise HypTrapException()
             return self.cp15_instr_decode(instr)
 
     def coproc_get_word_to_store(self, cp_num, instr):
